@@ -34,6 +34,10 @@ ALL_SLOTS = ["sequence", "_BpSeq__stems_entries", "elements", "_BpSeq__regions",
              "all_dot_brackets"]
 
 
+def preload(tier):
+    solve_engine.common()
+
+
 def total_runs(tier):
     return PLAN[tier]["runs"]
 
@@ -106,7 +110,7 @@ def apply_op(env, op, obj, birth):
         elif op == "elements":
             raw = obj.elements
         elif op == "convert_sim":
-            raw = obj.convert_to_dot_bracket(SimSolver(env))
+            raw = obj.convert_to_dot_bracket(env.decoy_solver())
         elif op == "convert_none":
             raw = obj.convert_to_dot_bracket(None)
         elif op == "without_pseudoknots":
